@@ -28,6 +28,8 @@ func c13Text(tokens []string) string {
 		}
 		if t == "(" || t == ")" || refmodel.Precedence(t) > 0 {
 			sb.WriteString(t)
+		} else if strings.HasPrefix(t, "#") {
+			sb.WriteString(t[1:]) // a scalar literal
 		} else {
 			sb.WriteString("vector(" + t + ")")
 		}
@@ -59,6 +61,10 @@ func (p *c13Parser) atom() refmodel.Expr {
 		return e
 	}
 	var f float64
+	if strings.HasPrefix(t, "#") {
+		fmt.Sscanf(t[1:], "%g", &f)
+		return &refmodel.Lit{V: f}
+	}
 	fmt.Sscanf(t, "%g", &f)
 	return &refmodel.Vec{V: f}
 }
@@ -138,10 +144,26 @@ func c13Check(r *vkit.Run, in c13Input) (separated bool) {
 			}
 		}
 	}
+	if finding == "" && prefix(quirk) != prefix(conv) && strings.Contains(res.Err, "LiteralExpr is not supported") && c13HasLitLit(quirk) && !c13HasLitLit(conv) {
+		// the right-nested reading puts two literals under one operator, which this engine then refuses to evaluate:
+		// the same known finding, seen as an error instead of as another value
+		finding = "C13-equal-precedence-nests-right"
+	}
 	r.Fail("C13", in, nil, map[string]any{"query": text, "result": res.String()},
 		map[string]any{"conventional_tree": prefix(conv), "value": c13Val(conv, refmodel.Convention{FalseIsZero: true})},
 		fmt.Sprintf("%s evaluates to %s, its conventional reading %s gives %s (%s)", text, res.String(), prefix(conv), c13Val(conv, refmodel.Convention{FalseIsZero: true}), lastWhy), finding)
 	return separated
+}
+
+// c13HasLitLit: some operator of the tree has two scalar literals as its operands.
+func c13HasLitLit(e refmodel.Expr) bool {
+	b, ok := e.(*refmodel.Bin)
+	if !ok {
+		return false
+	}
+	_, l := b.L.(*refmodel.Lit)
+	_, r := b.R.(*refmodel.Lit)
+	return (l && r) || c13HasLitLit(b.L) || c13HasLitLit(b.R)
 }
 
 // c13Print prints a tree with only the parentheses the convention requires (redundant=false) or with a
@@ -149,6 +171,9 @@ func c13Check(r *vkit.Run, in c13Input) (separated bool) {
 func c13Print(e refmodel.Expr, redundant bool) []string {
 	b, ok := e.(*refmodel.Bin)
 	if !ok {
+		if l, isLit := e.(*refmodel.Lit); isLit {
+			return []string{fmt.Sprintf("#%g", l.V)}
+		}
 		v := e.(*refmodel.Vec)
 		t := []string{fmt.Sprintf("%g", v.V)}
 		if redundant {
@@ -302,8 +327,41 @@ func c13Run(r *vkit.Run) {
 		})
 	}
 	_ = fill
+	// (c) scalar literals among the operands: both shapes of two arithmetic operators, every placement of one or
+	// two literals (parentheses around an operation with a literal must keep their meaning)
+	arith := []string{"+", "-", "*", "/", "%", "^"}
+	lv := []float64{10, 3, 2}
+	for _, op1 := range arith {
+		for _, op2 := range arith {
+			for mask := 1; mask <= 6; mask++ {
+				idx++
+				if !r.Mine(idx) || r.Stop() {
+					continue
+				}
+				leafE := func(i int) refmodel.Expr {
+					if mask&(1<<i) != 0 {
+						return &refmodel.Lit{V: lv[i]}
+					}
+					return &refmodel.Vec{V: lv[i]}
+				}
+				for ti, tree := range []refmodel.Expr{
+					&refmodel.Bin{Op: op2, L: &refmodel.Bin{Op: op1, L: leafE(0), R: leafE(1)}, R: leafE(2)},
+					&refmodel.Bin{Op: op1, L: leafE(0), R: &refmodel.Bin{Op: op2, L: leafE(1), R: leafE(2)}},
+				} {
+					if (ti == 0 && mask&3 == 3) || (ti == 1 && mask&6 == 6) {
+						continue // an operation between two literals as an operand: this engine reports it as unsupported
+					}
+					for _, red := range []bool{false, true} {
+						if c13Check(r, c13Input{Tokens: c13Print(tree, red), Tree: prefix(tree)}) {
+							r.NonTrivial()
+						}
+					}
+				}
+			}
+		}
+	}
 	r.Count("chains_where_right_nesting_changes_the_value", int64(nsep))
-	r.Note("bounds", fmt.Sprintf("all chains of 2..5 operands over 15 operators (54240 chains) x 2 operand tuples; all binary trees with 2..%d operators over %d operators printed with minimal and with redundant parentheses; instant queries", K, len(opset)))
+	r.Note("bounds", fmt.Sprintf("all chains of 2..5 operands over 15 operators (54240 chains) x 2 operand tuples; all binary trees with 2..%d operators over %d operators printed with minimal and with redundant parentheses; both shapes of two arithmetic operators with every placement of one or two scalar literals; instant queries", K, len(opset)))
 }
 
 func c13Replay(r *vkit.Run, v vkit.Violation) *vkit.Violation {
